@@ -13,7 +13,7 @@ CHECKS = {
             "real forked reader processes advanced one seek/readline at a time by a Hypothesis-generated schedule; value oracle against reference lines",
             "The object is opened in the parent and used by 1..4 forked children, optionally the parent itself and a grandchild; the "
             "controller grants single low-level seek/readline steps according to a generated schedule (round-robin after it is "
-            "exhausted), so seeks of one process fall between seek and readline of another. Every value read anywhere must equal the "
+            "exhausted), so seeks of one process fall between seek and readline of another. Programmes contain index reads, fresh iterations, slices and runs of up to 320 consecutive keys (longer than a read-ahead buffer). Every value read anywhere must equal the "
             "reference line; files up to 200 KB so that private user-space buffers cannot mask interference.",
             "Schedule control stops at Python-level seek/readline calls on the handle; real fork, real descriptors.",
             "DESIGN.md §3 E3, §4 C18"),
@@ -22,41 +22,42 @@ CHECKS = {
             "The unmodified FunctorPool/FactoryFunctorPool code runs with every primitive operation and every source line as a "
             "preemption point; schedules are generated data. Each fully consumed call must equal map(f, data) (multiset + in-chunk order "
             "for imap_unordered), no exception may escape, no payload may remain in any queue. All schedules with <=1 (quick) / <=2 "
-            "(thorough) deviations are enumerated for three small configurations; beyond that sampled.",
+            "(thorough) deviations are enumerated for five small configurations, and all schedules with <=2 deviations placed right before "
+            "accesses to the pool object's attributes (preemption inside a source line) for two more; beyond that sampled. A few cases run on real processes.",
             E2NOTE, "DESIGN.md §3 E2, §4 C01"),
     "C02": ("E2+E5", "exploration",
             "the real pool code under a harness-owned scheduler; 'hang' decided as 'no runnable task while the consumer has not left the pool' (no clock); generated late-input timings, flow-control configurations and schedules; bounded-exhaustive schedule sweeps",
             "Termination is decided as deadlock-freedom of the controlled system over generated timings of the input iterator "
             "(items / StopIteration arbitrarily late), queue bounds and schedules; complete up to 1 (quick) / 2 (thorough) deviations "
-            "for three small configurations, sampled beyond.",
+            "for three small configurations and up to 2 deviations at shared-attribute accesses for two more, sampled beyond; late-input cases also run on real processes under a quiescence watchdog.",
             E2NOTE + " Liveness = deadlock-freedom (the code has no retry loops except the modelled timed join).", "DESIGN.md §3 E2, §4 C02"),
     "C03": ("E2+E5", "exploration",
             "call histories on one pool (quota / replacement included) under the harness-owned scheduler; per-call value oracle with call-tagged payloads, deadlock oracle, between-call queue inspection; bounded-exhaustive schedule sweeps",
             "Histories of 2..5 calls on one pool instance with quotas 1..3/inf; payloads are tagged with the call number so leakage is "
-            "recognisable; every call is judged by C01's and C02's oracles. All schedules with <=1 deviation (quick; thinned <=2 in "
-            "thorough) are enumerated for four small configurations.",
+            "recognisable; every call is judged by C01's and C02's oracles. All schedules with <=1 deviation (thinned <=2 in "
+            "thorough for two of them) are enumerated for four small configurations, and all schedules with <=2 deviations at shared-attribute accesses for two multi-call configurations; quota histories also run on real processes.",
             E2NOTE, "DESIGN.md §3 E2, §4 C03"),
     "C04": ("E1+E2", "fault_enumeration",
             "fault-position enumeration on the real BaseFunctorWorker.run (every begin/functor-item/end fault for each Hypothesis-generated workload) + pool-level lifecycle oracle under the harness-owned scheduler",
             "Worker level: for each generated workload every fault position is executed and the event log, results, quota and replace "
             "request are checked. Pool level: instrumented workers in generated call histories and schedules; begin/end once each, "
-            "until_all_ready only after begin completed, chunks per worker <= quota, no task left when the pool context is left.",
+            "until_all_ready only after begin completed, chunks per worker <= quota, no worker (replaced ones included, slow end() generated) still running at the moment the pool context is left, pool exit protocol completes; the same lifecycle facts are observed on real processes for a few cases.",
             "Harness queues have queue.Queue semantics for get/put/put(block=False). " + E2NOTE, "DESIGN.md §4 C04"),
     "C05": ("E2+E5", "exploration",
             "FunctorMap / mul_p_map under the harness-owned scheduler with pipe-queue stand-ins (in-flight delivery as scheduler step); generated inputs, call sequences and schedules; bounded-exhaustive schedule sweeps",
             "Every call must yield/return map(f, data) in order, terminate (deadlock oracle), leave nothing in the results queue, and "
-            "all workers must be finished after exit; repeated calls on one FunctorMap included.",
+            "all workers must be finished after exit; repeated calls on one FunctorMap (consumed to exhaustion or by taking exactly len(data) results) and a bounded pipe capacity (large payloads) included.",
             E2NOTE, "DESIGN.md §3 E2, §4 C05"),
     "C14": ("E1+E2", "exploration",
             "sequential: Hypothesis-generated store/read/flush histories with real manager and forked writer processes against a dict model; concurrent: writers/readers as scheduler tasks on fork copies with generated schedules and a <=1-deviation sweep",
             "Sequential histories (gaps, duplicates, pre-sized index, reopen, flush) against a reference dict; concurrent runs decide "
-            "'a read returns exactly the stored text or IndexError (only if the store had not returned)' over generated interleavings at "
-            "line granularity inside storage.py.",
+            "'a read returns exactly the stored text or IndexError (only if the store had not returned)' and 'a concurrent iteration yields complete texts in id order including every id stored before it started' over generated interleavings at "
+            "line granularity inside storage.py; a reality part runs real writer and reader processes.",
             "Sequential part uses real multiprocessing; concurrent part: " + E2NOTE, "DESIGN.md §4 C14"),
     "C20": ("E1", "exploration",
             "Hypothesis-generated pool bodies with every fault position enumerated; real files in scratch directories; forked children for multi_proc pools",
             "For every generated create/remove/flush body the with-block is executed without fault and with an exception raised at every "
-            "position; listing, disk content, exception propagation, emptiness after flush/exit and closed handles (FilePool) are checked.",
+            "position; listing, disk content, exception propagation, emptiness after flush/exit and closed handles (FilePool) are checked; parent and children also remove/create on one multi_proc pool concurrently under a generated cross-process schedule, and FilePools with an unopenable path must leave no descriptor open.",
             "Files are created only through the pool; multi_proc children are multiprocessing (fork) processes.", "DESIGN.md §4 C20"),
     "C09": ("E1", "exploration",
             "Hypothesis-generated operation histories against builtin set/dict as reference model, including foreign-typed probes",
